@@ -5,7 +5,8 @@ NOTES = ("See DESIGN.md. Every check = static Coq theorems (full make, Print Ass
          "correspondence triggers a search for a concrete failing input (the property's monitor evaluated on the implementation's observations).")
 TB = "Trusted: Coq 8.16.1 kernel + vm_compute (no native_compute, no axioms: Print Assumptions 'Closed under the global context'); "
 CLAIMED = {
- "C15": {"text": "Coq theorems over the model of lib/uu (round trip, decoder totality/no panic, append shape, both Max*Len bounds, output alphabet) "
+ "C15": {"text": "Coq theorems over the model of lib/uu (round trip, decoder totality/no panic, append shape, both Max*Len bounds, output alphabet, "
+                 "and c15_perl_compatible: encode = an independent bit-regrouping specification of Perl's pack('u') for every byte string) "
                  "for all inputs; model tied to the code by byte-exact correspondence on ~7000 generated cases per quick run judged inside Coq, "
                  "plus real perl pack/unpack on a sample. Purity (no writes to src / existing dst) is observed in canary arenas, not proved.",
          "note": TB + "hand-written model Model/UU.v tied by correspondence; Go slice semantics not modelled; perl 5.36 = 'Perl'.",
@@ -45,8 +46,10 @@ CLAIMED.update({
                  "direction with non-empty key and the SAME key when both are held; busy streams are exactly the slot holders; the admission "
                  "decision is characterised exactly (accepts); a refused attempt changes nothing but its own bookkeeping, returns at once, gets no "
                  "write, raises no event and is announced+logged unless shutting down; input is written only to the input-slot holder and output "
-                 "displayed only from the output-slot holder. " + BRK + "Exhaustive small scope (depth 4) + 400 random histories per quick run.",
-         "note": TB + "sync.Mutex atomicity, ConstantTimeCompare = byte equality, unguessable /io sentinel are assumptions; HTTP glue outside.",
+                 "displayed only from the output-slot holder. " + BRK + "Exhaustive small scope (depth 4) + 400 random histories per quick run; "
+                 "HTTP surface: pairs of real HTTPS requests /i/{a}, /o/{b} on a real Server with IDs differing only by what a careless normalisation "
+                 "would erase, outcome predicted by running the broker model on the percent-decoded path elements.",
+         "note": TB + "sync.Mutex atomicity, ConstantTimeCompare = byte equality, unguessable /io sentinel are assumptions; net/http's mux decodes the {id} element.",
          "technique": "Coq proof (state invariants by induction over operation lists) + hook-serialised differential correspondence judged by vm_compute"},
  "C06": {"text": "Coq theorem over EVERY operation history: if both slots are held and one holder is a half of /io request r, the other is a half "
                  "of the same request (corollary of the same-key invariant; keys of different requests differ). " + BRK + "All 24 admission orders "
@@ -58,7 +61,9 @@ CLAIMED.update({
                  "'gone' notice + disconnected event in the step emptying the last slot, after which key and slots are as at start; ready notice "
                  "exactly when an accepted stream finds the other slot held; in every reachable idle state any non-empty key is accepted (re-arm, "
                  "unbounded number of shells); Do may return only when shut down with both slots empty. " + BRK + "PARTIAL for 'nothing keeps "
-                 "running': observed (goroutine dump after all transports closed, incl. flood with a stalled terminal), not proved.",
+                 "running': observed (goroutine dump after all transports closed, incl. flood with a stalled terminal; notice totals once the terminal "
+                 "is drained), not proved. A real-scheduler shutdown-race test covers callers queued on the broker's mutex (stalled refusal notice "
+                 "inside the admission section, shutdown and a late attempt behind it): once Do has returned nothing is attached.",
          "note": TB + "goroutine/channel behaviour of proxyOut's reader is exercised, not modelled.",
          "technique": "Coq proof (invariants + per-step characterisations) + hook-serialised correspondence judged by vm_compute + leak observation"},
  "C02": {"text": "Coq theorems for every queue, writer kind and failure point: lines written (each + exactly one newline) followed by lines still "
@@ -71,14 +76,16 @@ CLAIMED.update({
  "C03": {"text": "Coq theorems: a read of the attached output stream is displayed exactly once, unmodified, before any closure notice of the step "
                  "(also when returned together with the terminal error) and nothing else is ever displayed. PARTIAL: the model has an unbounded "
                  "operator channel; proxyOut's bounded queues under a slow terminal are exercised (capacity 1-3, scripted drains) and judged by "
-                 "the monitor (shown = prefix of sent; complete before the close notice), not proved. " + BRK,
+                 "the monitor (shown = prefix of sent; complete before the close notice), not proved. Last hop (lib/opshell, Model/Terminal.v): theorem - "
+                 "however a byte sequence is cut into reads, the terminal is written that sequence with LF rendered CR LF (x/term, raw mode; proved "
+                 "lossless); tied by 200 chunkings of UTF-8 / non-UTF-8 / control bytes through the real Shell with its output captured. " + BRK,
          "note": TB + "relative speeds are explored as orders inside synctest, not proved over a queue model.",
          "technique": "Coq proof over the coarse model (partial) + read-script correspondence and stalled-terminal monitor judged by vm_compute"},
  "C11": {"text": "Coq theorems: input 'Shell I/O' records = lines written, in order, minus at most the failing last one; each displayed chunk has "
                  "exactly one record with the same bytes; a refused attempt outside shutdown has exactly one error record. " + BRK + "Records are "
                  "captured through a mirror of the real slog.NewJSONHandler(w, nil) (level filtering as in the program); the monitor also checks "
                  "connect/disconnect records per stream and that the JSON output is one parsable object per line. PARTIAL: reconstruction of a "
-                 "whole session from the log is checked by the monitor, not proved.",
+                 "whole session from the log is checked by the monitor, not proved. Stalled-terminal and cancelled-flood cases: nothing undelivered is logged.",
          "note": TB + "slog's JSON escaping is standard library (framing checked, escaping not modelled).",
          "technique": "Coq proof (per-step characterisations) + correspondence with a mirrored JSON handler judged by vm_compute"},
 })
@@ -88,8 +95,11 @@ CLAIMED["C19"] = {"text": "Coq theorems over the mute machine for EVERY timed ev
                  "announced, with no input needed; closed-form muted interval; repeated Ctrl+O changes nothing; pause = 2000 ms (checked against the "
                  "source on every run). Tie: the REAL opshell.New shell (timer callback, ^O handler, writePlain, handleOutput) is replayed inside "
                  "testing/synctest as a pty child on the exhaustive gap grid {0,1,500,1999,2000,2001} ms to depth 3 plus random ms schedules "
-                 "(~6500 per quick run), compared per instant with the model and with the statement's monitor, in Coq.",
-         "note": TB + "virtual clock of synctest = model clock; goxterm rendering and the lock order between goxterm and Shell.wL are outside.",
+                 "(~6600 per quick run, incl. backlogs queued in the 1024-deep operator channel while the terminal is busy), compared per instant with "
+                 "the model and with the statement's monitor, in Coq; plus Ctrl+O as a REAL key press through goxterm's key handling (which holds the "
+                 "terminal's lock) while output is being written - forced unlucky schedule and free floods - after which the mute must be announced and "
+                 "a status line written (this found a genuine dead-lock, repaired by fix: 3f1e604).",
+         "note": TB + "virtual clock of synctest = model clock; goxterm rendering is outside; lock order is exercised by the key-press stream, not modelled.",
          "technique": "Coq proof (invariant + closed-form case analysis with lia) + virtual-time differential correspondence judged by vm_compute"}
 CLAIMED["C10"] = {"text": "Coq theorems: with a constant format of plain verbs (one operand per verb) the output is the literal text with every operand "
                  "inserted whole, for ALL operand bytes (render = weave; each operand occurs verbatim); in a well-formed call-site program no format "
@@ -97,14 +107,16 @@ CLAIMED["C10"] = {"text": "Coq theorems: with a constant format of plain verbs (
                  "'every call site in the tree' half is re-decided on EVERY run: translator/fmtgraph type-checks /repo's working tree (go/types), "
                  "emits all ~160 call sites of fmt.*f, log.*f and the module's own (format, ...any) wrappers incl. closures as Coq data, and coqc "
                  "proves prog_wf sites = true by vm_compute. Failing-input search and validation of the translator: hostile IDs through the real "
-                 "broker and hostile paths/queries/c2/Host/zoned client addresses through the real mux and handlers; every notice must show the "
-                 "client text verbatim.",
+                 "broker and hostile paths/queries/c2/Host (incl. invalid punycode labels)/zoned client addresses through the real mux and handlers; "
+                 "every notice must show the client text verbatim - on the operator channel and, through the real Shell, on the terminal.",
          "note": TB + "fmt's behaviour on constant plain-verb formats as in Lib/Fmt.render (stdlib); translator trusted (cross-checked by the notice streams).",
          "technique": "model regenerated from source by a translator + reflective Coq obligation (vm_compute) + soundness theorems; dynamic notice checks as search"}
 CLAIMED["C09"] = {"text": "Coq theorem for EVERY decoded request path (any bytes): the path the file handler opens under the root is '/' or a sequence of "
                  "elements none of which is empty, '.', '..' or contains '/', i.e. lexically inside the tree (path.Clean's contract, model validated "
                  "against the real path.Clean on 1500 hostile paths per run). PARTIAL: that the mux, FileServer and http.Dir apply exactly this, that "
-                 "shell endpoints win over files, unset => 404 and single file => that file is exercised, not proved: ~140 raw request lines over "
+                 "shell endpoints win over files, unset => 404 and single file => that file (status 200 for every path that reaches the handlers; the mux's "
+                 "own 301 for a non-canonical escaped path is modelled and its correspondence checked) is exercised, not proved: ~170 raw request lines "
+                 "(incl. half-closing clients and cancelled request contexts, which must still be reported) over "
                  "real TLS x 3 modes (tagged tree files named like the endpoints, canaries just outside incl. a sibling extending the root's name; "
                  "plain/encoded/double-encoded dot segments, encoded slashes/backslashes, NUL, 5000-byte and 40-level paths, POST/PUT to endpoints) "
                  "judged in Coq against the cleaned-path model (content only of the file the cleaned path names; never a canary; notices).",
@@ -114,7 +126,8 @@ CLAIMED["C07"] = {"text": "Coq theorems: the callback address is chosen by the s
                  "template both curl commands are built from the same (pin, address, ID); broken/missing/failing templates and undeterminable addresses "
                  "give an error status without script; IDs are non-empty, [0-9a-z] only, and injective in the 64-bit random number. Tie: ~105 requests "
                  "per quick run against the real Server (direct handler calls with crafted Host/SNI/c2 in query, POST form and header; raw HTTP/1.0 "
-                 "over TLS; listen port 443; a template file edited, broken, removed and re-created between requests), response compared in Coq with "
+                 "over TLS; listen port 443; a template file edited, broken, removed and re-created between requests, also with size and mtime unchanged), "
+                 "response compared in Coq with "
                  "the model script for the ID found. PARTIAL for 'yields a working shell': the served script is piped to /bin/sh with real curl and a "
                  "command round-trips (behavioural test).",
          "note": TB + "text/template engine, idna.ToASCII (verdict taken from the real library), math/rand, curl, sh are environment.",
@@ -122,7 +135,7 @@ CLAIMED["C07"] = {"text": "Coq theorems: the callback address is chosen by the s
 CLAIMED["C05"] = {"text": "Coq theorems (data flow / formatting): the pin position of every one-liner holds exactly the listener's fingerprint string, both curls "
                  "of every script carry it, base64 is injective and decodable (another string of the shape is another 32-byte value), user ports kept / "
                  "bound port appended. PARTIAL for 'equals the hash of the key really served': on every run, for 12 configurations (6 listen forms, "
-                 "callback-address sets, fresh/cached/full-chain/regenerated-underneath caches, restarts, help re-printed after a shell died) a TLS client "
+                 "callback-address sets, fresh/cached/full-chain/regenerated-underneath/expired caches, restarts, help re-printed after a shell died) a TLS client "
                  "records the leaf it is shown and Coq itself computes base64(SHA-256(SubjectPublicKeyInfo)) (Gallina SHA-256, vm_compute) and compares it "
                  "with every advertised pin.",
          "note": TB + "TLS presents Certificates[0]; SHA-256 collision resistance; curl's pin check (exercised in C07's run) are assumptions.",
@@ -131,7 +144,9 @@ CLAIMED["C12"] = {"text": "Coq theorems: for every sequence of broker events the
                  "connected event occurs exactly at full attachment (broker theorem), so refused and half-attached attempts never close it; no help is "
                  "re-offered under -one-shell; exit status 0 for ErrOneShellClosed/EOF. PARTIAL: that Close makes the kernel refuse connections 'shortly' "
                  "and that the attached shell is undisturbed is exercised: a real Server is probed with connect(2) at every stage of 12 scenarios "
-                 "(/i+/o in both orders, /io; preceded by half-attached and refused attempts; traffic after the close; Do must return ErrOneShellClosed by itself).",
+                 "(/i+/o in both orders, /io; preceded by half-attached and refused attempts; traffic after the close; Do must return ErrOneShellClosed by itself); "
+                 "end to end: 11 runs of the real binary with -one-shell under a pty with a real TLS /io client, one shell attached for 33 s (thorough 95 s) "
+                 "and still working, then ONE entered line must give exit status 0.",
          "note": TB + "net.Listener.Close / http.Server.Shutdown semantics are net/http's; real-time polling (up to 3 s) for 'refused'.",
          "technique": "Coq proof (watcher logic composed with the broker invariants) + real-socket scenario test judged by vm_compute"}
 CLAIMED["C13"] = {"text": "Coq theorems: with a fingerprint configured a request is sent IFF it decodes (base64, CR/LF ignored, optional sha256//) to exactly 32 "
@@ -140,7 +155,9 @@ CLAIMED["C13"] = {"text": "Coq theorems: with a fingerprint configured a request
                  "implementation, base64 round trip); without a fingerprint ordinary validation decides; the decision is a function of the call's own "
                  "arguments (no state). Tie: 120 calls per quick run in ONE process against 8 TLS servers with generated keys and 1-3 certificate "
                  "chains, 14 fingerprint spellings, trusted and untrusted leaves; Coq recomputes SHA-256/base64 of the presented keys and predicts "
-                 "whether the handler may run; http.DefaultClient/DefaultTransport compared with their initial state after every call. PARTIAL for the "
+                 "whether the handler may run; directed sequences per server (TLS session resumption) and overlapping calls (a second call runs to completion "
+                 "between the first's client configuration and its connect), each judged on its own configuration; "
+                 "http.DefaultClient/DefaultTransport compared with their initial state after every call. PARTIAL for the "
                  "TLS mechanics (handshake, VerifyConnection ordering): environment.",
          "note": TB + "crypto/tls handshake and x509 validation are the library's; SHA-256 collision resistance assumed.",
          "technique": "Coq proof (iff characterisation, codec round trips, hash output shape) + differential correspondence with in-Coq hashing judged by vm_compute"}
@@ -149,7 +166,7 @@ CLAIMED["C14"] = {"text": "Coq theorem over a transition-system model of CmdShel
                  "interleaving: when the stream reports EOF the reader has been handed, per descriptor and in order, exactly what was written; what "
                  "is handed over is always a prefix of it; the pre-repair protocol (reaper closes the read ends at child exit) is refuted by a "
                  "witness. PARTIAL: kernel pipes / os/exec / io.Pipe are modelled by contract; the tie is a stress run with real perl children "
-                 "(bursts up to three pipe buffers, early exit, stdout closed before stderr, idle open stdin, readers from 100 B to 64 KiB with pauses) "
+                 "(bursts up to three pipe buffers, early exit, deaths by signal, stdout closed before stderr, idle open stdin, readers from 100 B to 64 KiB with pauses) "
                  "judged in Coq by splitting the stream per descriptor. Timing is real: one-sided.",
          "note": TB + "os/exec.Cmd.Wait, kernel pipe and io.Pipe semantics are assumptions of the model; liveness (the stream does end) is observed, not proved.",
          "technique": "Coq proof (invariant over all schedules of a small concurrent model) + stress correspondence with real children judged by vm_compute"}
@@ -158,7 +175,8 @@ CLAIMED["C08"] = {"text": "Coq theorems (for every parser satisfying load_ok): o
                  "file present nothing is written and only the original pair or an error results; a missing file is regenerated with the run's own pair; "
                  "0600/0700 are owner-only. PARTIAL: load_ok (a cut or damaged file either still yields the original MATCHING pair or is an error other "
                  "than not-exist) is a hypothesis about txtar/PEM/x509, CHECKED on every run on the real parsers by enumerating EVERY prefix length of a "
-                 "real cache file (~815 crash points), 400 single-byte corruptions in every region, restart/delete/no-cache histories and 0-4 nested "
+                 "real cache file (~815 crash points), 400 single-byte corruptions in every region, restart/delete/no-cache histories (also on a cache whose "
+                 "certificate has expired) and 0-4 nested "
                  "not-yet-existing directories, with key identity, key/certificate match, file bytes+mtime and permission bits observed.",
          "note": TB + "crash = constructed prefix (no process is killed mid-write); umask 022; mode literals checked in the source per run.",
          "technique": "Coq proof under an explicit parser hypothesis + exhaustive crash-point / corruption enumeration judged by vm_compute"}
